@@ -1,4 +1,4 @@
 SPECIFICATION TSpec
-INVARIANTS TypeOK OneWinner PayloadIsWinners NoEarlyWake AtMostOnce SeesCompleteResult WokenOnlyWhenFlagged ChainWellFormed AllReleasedAtEnd
+INVARIANTS TypeOK OneWinner PayloadIsWinners ArgConsumedOnlyByWinner PayloadBuiltOnce DropMeansNoValue NoEarlyWake AtMostOnce SeesCompleteResult WokenOnlyWhenFlagged ChainWellFormed AllReleasedAtEnd
 POSTCONDITION TraceAccepted
 CHECK_DEADLOCK FALSE
